@@ -7,6 +7,7 @@ lastupdated / productrelease of every entry equal the declaration (reference mod
 from hypothesis import strategies as st
 
 from vlib import mibgen, setcheck
+from vlib.core import Violation
 
 ID = 'C03'
 LEVEL = 'exploration'
@@ -76,9 +77,31 @@ def compile_prop(case, rec):
             raise Violation('%s:%s' % (backend, facet), detail, case, {'texts': texts})
 
 
+PROBE_KEYWORDS = {'modules': [{'name': 'PK-MIB', 'dialect': 'v2', 'exports': None, 'imports': [], 'decls': [
+    {'k': 'value', 'name': 'global', 'oid': {'first': ['num', 1], 'arcs': [['n', 3]]}, 'num': [1, 3]},
+    {'k': 'value', 'name': 'class', 'oid': {'first': ['num', 1], 'arcs': [['n', 4]]}, 'num': [1, 4]},
+    {'k': 'value', 'name': 'knode', 'oid': {'first': ['ref', 'PK-MIB', 'global'], 'arcs': [['n', 1]]}, 'num': [1, 3, 1]}]}]}
+
+
+def probes(ctx):
+    def p(rec):
+        # D17: symbols named like Python keywords do not compile. If they ever do, they are ordinary symbols: keyed
+        # by their own name (a key such as pysmi_global is a renaming the statement does not allow)
+        c, mm = setcheck.evaluate(PROBE_KEYWORDS, backends=('json',))
+        rec.evaluated()
+        fails = any(f == 'compile-failed' for b, f, d in mm)
+        ctx.probe('D17', fails)
+        if not fails:
+            for backend, facet, detail in mm:
+                raise Violation('keyword-named-symbol:%s:%s' % (backend, facet), detail, {'mset': PROBE_KEYWORDS, 'genTexts': False},
+                                {'texts': c.texts})
+    ctx.inline('probe', p)
+
+
 def run(ctx):
     ctx.search('json', cases, prop, ctx.pick(3000, 60000))
     ctx.search('compile', multi_cases, compile_prop, ctx.pick(1600, 30000))
+    probes(ctx)
 
 
 def replay(ctx, data):
